@@ -1,6 +1,7 @@
 package regex
 
 import (
+	"fmt"
 	"regexp"
 	stdSync "sync"
 
@@ -96,6 +97,18 @@ func (s *RSchema) generateExample() ([]byte, error) {
 
 	s.generatorMx.Lock()
 	defer s.generatorMx.Unlock()
+	return generate(g)
+}
+
+// generate asks the generator for an example. The generator panics on a pattern
+// which cannot match anything (for instance, a character class without members),
+// such a pattern has no example.
+func generate(g *reggen.Generator) (b []byte, err error) {
+	defer func() {
+		if r := recover(); r != nil {
+			b, err = nil, errs.ErrRegexExample.F(fmt.Sprintf("the pattern has no example (%v)", r))
+		}
+	}()
 	return []byte(g.Generate(1)), nil
 }
 
